@@ -230,7 +230,9 @@ def tonsq_refuse(ctx, b_tonsq, corr_broken):
     for l in log.splitlines():
         if l.startswith("ORACLE-FAIL"):
             what = l[len("ORACLE-FAIL "):]
-            key = "to_nsq-refusal:" + re.sub(r"[0-9a-f]{6,}|\d+", "N", what)[:60]
+            key = "to_nsq-refusal:" + ("exit-0-after-refusal" if "exit status 0 although" in what else
+                                       "records-after-refusal" if "after a refusal" in what else
+                                       re.sub(r"[0-9a-f]{6,}|\d+", "N", what)[:40])
             ctx.violation(key, "to_nsq (real binary, refusing destination): " + what[:600], "seed %s\n%s\n" % (ctx.seed, what))
     if "ORACLE-DONE" not in log:
         ctx.log("to_nsq refusal harness failed:\n%s" % log[-1500:])
